@@ -158,6 +158,10 @@ MUTANTS = [
     ("support2d-index-rounded", IB + "EulerianLagrangianGridCommunicator2D.py", "nearest_eul_grid_index_to_lag_grid[...] = (lag_positions - eul_grid_coord_shift) // dx", "nearest_eul_grid_index_to_lag_grid[...] = np.rint((lag_positions - eul_grid_coord_shift) / dx)", ["C07", "C06"]),
     ("forcing-update-2d-skipped-on-zero-x-forcing", E2 + "update_vorticity_from_velocity_forcing_2d.py", "        _update_vorticity_from_velocity_forcing_pyst_kernel_2d(\n", "        if not velocity_forcing_field[x_axis_idx].any():\n            return\n        _update_vorticity_from_velocity_forcing_pyst_kernel_2d(\n", ["C05"]),
     ("damping-coefficient-product-instead-of-power", IBFI, "virtual_boundary_damping_coeff *= max_lag_grid_dx ** (grid_dim - 1)", "virtual_boundary_damping_coeff *= max_lag_grid_dx * (grid_dim - 1)", ["C10"]),
+    # eighth-round rules
+    ("factory3d-drops-poisson-solver-type", "sopht/simulator/flow/flow_simulators_3d.py", "        poisson_solver_type=poisson_solver_type,\n", "", ["C01", "C16"]),
+    ("forcing-support-buffer-single-precision", IB + "VirtualBoundaryForcing.py", "eul_grid_support_of_lag_grid_shape, dtype=real_t", "eul_grid_support_of_lag_grid_shape, dtype=np.float32", ["C06"]),
+    ("load-skips-eulerian-checks-without-section", "sopht/utils/io.py", "            if self.eulerian_fields:\n                if not self.eulerian_grid_defined:", '            if self.eulerian_fields and "Eulerian" in keys:\n                if not self.eulerian_grid_defined:', ["C17"]),
 ]
 
 # behaviour-preserving edits: every listed check must stay silent
